@@ -7,7 +7,7 @@ import (
 	"verif/harness/internal/h"
 )
 
-var sizes = []int{0, 40000, 70000}
+var sizes = []int{0, 33000, 66000}
 
 func specsFor(seed int64, n int, rot int) []treeSpec {
 	out := make([]treeSpec, n)
@@ -74,7 +74,7 @@ func sweepSeq(r *h.Run) {
 						sc := seqScenario{Type: "seq", Kind: kind, Versions: specs, Ops: ops}
 						o := runSeq(r, sc, true)
 						r.Distinct(fmt.Sprintf("%s|%d|%s|%s|%s|%s", kind, nh, target, tr.Name, pathClass(tr.Path), fk))
-						if k%17 == 0 {
+						if k%17 == 0 && len(o) > nh+5 {
 							r.Sample(map[string]any{"kind": kind, "history": nh, "target": target, "k": k, "op": tr.Name, "path": pathClass(tr.Path), "fault": fk,
 								"result": o[nh].Res, "then": []string{o[nh+1].Res, o[nh+3].Res, o[nh+5].Res}})
 						}
@@ -110,8 +110,6 @@ func pathClass(p string) string {
 	}
 	return "other"
 }
-
-func emitSeqCase(r *h.Run, sc seqScenario, obs []opObs) {}
 
 func replayOther(r *h.Run, typ string, raw json.RawMessage) {}
 
